@@ -642,6 +642,9 @@ func genCfg(r *rng.R, dev uint32) cfgGen {
 		b := []byte{192, 168, byte(r.Intn(4)), 255}
 		port := uint16(rng.Pick(r, 60000, 60005, 1, 65535))
 		g.broadcast = types.BroadcastAddrFrom(netip.AddrFrom4([4]byte{b[0], b[1], b[2], b[3]}), port)
+		if r.Chance(1, 6) { // the same IPv4 address held in its 16-byte (IPv4-mapped) form
+			g.broadcast = types.BroadcastAddrFrom(netip.AddrFrom16(netip.AddrFrom4([4]byte{b[0], b[1], b[2], b[3]}).As16()), port)
+		}
 		g.toks = append(g.toks, fmt.Sprintf("bc=%d.%d.%d.%d:%d", b[0], b[1], b[2], b[3], port))
 	} else {
 		g.toks = append(g.toks, "bc=-")
@@ -669,6 +672,15 @@ func genCfg(r *rng.R, dev uint32) cfgGen {
 				b = rng.Pick(r, []byte{192, 168, 1, 151}, []byte{10, 0, 0, 246}, []byte{127, 0, 0, 129}, []byte{255, 255, 255, 3}, []byte{128, 128, 0, 0})
 			}
 			port := uint16(rng.Pick(r, 60000, 60000, 54321, 1, 65535, 32768, 32767))
+			if g.broadcast.IsValid() && r.Chance(1, 8) {
+				// the controller's own address happens to be the configured broadcast address (or differs in the port
+				// only): it is still a configured address - that endpoint, over the configured transport
+				a4 := g.broadcast.Addr().As4()
+				b = a4[:]
+				port = rng.Pick(r, g.broadcast.Port(), g.broadcast.Port(), port)
+			} else if !g.broadcast.IsValid() && r.Chance(1, 16) {
+				b, port = []byte{255, 255, 255, 255}, 60000 // ... or the default one
+			}
 			addr = types.ControllerAddrFrom(netip.AddrFrom4([4]byte{b[0], b[1], b[2], b[3]}), port)
 			at = fmt.Sprintf("%d.%d.%d.%d:%d", b[0], b[1], b[2], b[3], port)
 		}
